@@ -92,6 +92,8 @@ fn gen_case(plan: &props::Plan, prop: &str, seed: u64, i: u64) -> (Case, &'stati
 fn quiet_panics() {
     // panics inside simulated runs are verdicts (caught and reported), not crashes to print
     std::panic::set_hook(Box::new(|info| {
+        // first panic of an execution: everything dropped from now on must stay away from the scheduler
+        sched::mark_dead();
         if std::env::var("VSIM_SHOW_PANICS").is_ok() {
             eprintln!("{}", info);
         }
